@@ -594,6 +594,8 @@ pub fn run(ctx: &mut Ctx) {
     ];
     let t = ctx.tier;
     let avoid = (ctx.avoid(SIG_B) || ctx.avoid(SIG_H)) && ctx.is_generate();
+    let avoid_credit = ctx.avoid(super::c07_rogue::SIG_YAMUX_CREDIT) && ctx.is_generate();
+    ctx.campaign("rogue-yamux", CampaignCfg::new(t.pick(2_000, 40_000)).shards(16).shrink_iters(8), super::c07_rogue::strategy, move |c: &super::c07_rogue::Case| super::c07_rogue::run_case_with(c, avoid_credit));
     ctx.campaign("nodes", CampaignCfg::new(t.pick(320, 6_000)).shards(16).shrink_iters(6), strategy, move |c: &Case| run_case_with(c, avoid));
     ctx.campaign("channels", CampaignCfg::new(t.pick(30_000, 600_000)).shards(16), raw_strategy, run_raw);
     let avoid_g = ctx.avoid(crate::props::c05::SIG_G) && ctx.is_generate();
